@@ -177,6 +177,66 @@ theorem startup_ok_create (Start : FS → Prop)
   · exact (hdep _ _ e).mpr hold
   · exact (hdep _ _ e).mpr hnew
 
+/-! ### interrupted saves that are repeated
+
+A crash leaves the temporary file of the interrupted attempt behind (possibly torn).  A retry of the same save
+has the same data, hence the same temporary name; a different request has another name.  `crash_safe` and
+`save_complete` are stated for EVERY file system, so they apply to whatever the earlier attempts left. -/
+
+/-- one interrupted attempt: name suffix, data, crash prefix, tear point -/
+structure Attempt where
+  h : List Char
+  data : Bytes
+  k : Nat
+  t : Nat
+
+/-- the file system after a sequence of interrupted attempts to save `f` -/
+def afterAttempts (f : List Char) : FS → List Attempt → FS
+  | fs, [] => fs
+  | fs, a :: rest => afterAttempts f (crashState f (tmpName f a.h) a.data fs saveOps a.k a.t) rest
+
+/-- **attempts_safe**: after ANY number of interrupted attempts (each at any prefix and tear point, with the same or
+with different data) the target holds its original content or exactly the data of one of the attempts -/
+theorem attempts_safe (f : List Char) (as : List Attempt) (fs : FS) :
+    afterAttempts f fs as f = fs f ∨ ∃ a ∈ as, afterAttempts f fs as f = some a.data := by
+  induction as generalizing fs with
+  | nil => exact Or.inl rfl
+  | cons a rest ih =>
+    simp only [afterAttempts]
+    rcases ih (crashState f (tmpName f a.h) a.data fs saveOps a.k a.t) with e | ⟨b, hb, e⟩
+    · rcases crash_safe fs f a.h a.data a.k a.t with e1 | e1
+      · exact Or.inl (e.trans e1)
+      · exact Or.inr ⟨a, List.mem_cons_self, e.trans e1⟩
+    · exact Or.inr ⟨b, List.mem_cons_of_mem _ hb, e⟩
+
+/-- **retry_complete**: whatever earlier interrupted attempts left behind — including a torn temporary file with the
+very name this save uses — a save that completes stores exactly the new data -/
+theorem retry_complete (f : List Char) (as : List Attempt) (fs : FS) (h : List Char) (data : Bytes) :
+    crashState f (tmpName f h) data (afterAttempts f fs as) saveOps saveOps.length 0 f = some data :=
+  save_complete (afterAttempts f fs as) f h data
+
+/-- the interrupted save repeated once (same data, same temporary name), interrupted again anywhere -/
+theorem retry_crash_safe (fs : FS) (f h : List Char) (data : Bytes) (k t k' t' : Nat) :
+    let fs1 := crashState f (tmpName f h) data fs saveOps k t
+    let fs2 := crashState f (tmpName f h) data fs1 saveOps k' t'
+    fs2 f = fs f ∨ fs2 f = some data := by
+  intro fs1 fs2
+  rcases crash_safe fs1 f h data k' t' with e | e
+  · rcases crash_safe fs f h data k t with e1 | e1
+    · exact Or.inl (e.trans e1)
+    · exact Or.inr (e.trans e1)
+  · exact Or.inr e
+
+/-- files other than the target and the temporaries of the attempts are never touched -/
+theorem attempts_others_untouched (f : List Char) (as : List Attempt) (fs : FS) (q : Path)
+    (h1 : q ≠ f) (h2 : ∀ a ∈ as, q ≠ tmpName f a.h) : afterAttempts f fs as q = fs q := by
+  induction as generalizing fs with
+  | nil => rfl
+  | cons a rest ih =>
+    simp only [afterAttempts]
+    rw [ih _ (fun b hb => h2 b (List.mem_cons_of_mem _ hb))]
+    exact crash_others_untouched fs f a.h a.data a.k a.t q h1 (h2 a List.mem_cons_self)
+
 /-! ### non-vacuity: a concrete directory, a concrete save, a concrete crash -/
 
 def exF : Path := "a.wlt".toList
@@ -193,6 +253,17 @@ example : crashState exF (tmpName exF exH) [7, 7, 7, 7] exFS saveOps 1 2 (tmpNam
   decide
 example : crashState exF (tmpName exF exH) [7, 7, 7, 7] exFS saveOps saveOps.length 0 exF = some [7, 7, 7, 7] := by
   decide
+
+
+-- an attempt torn after 2 bytes, the same save repeated and completed: the new data, not the torn temporary
+example : crashState exF (tmpName exF exH) [7, 7, 7, 7]
+    (afterAttempts exF exFS [⟨exH, [7, 7, 7, 7], 1, 2⟩]) saveOps saveOps.length 0 exF = some [7, 7, 7, 7] := by decide
+example : afterAttempts exF exFS [⟨exH, [7, 7, 7, 7], 1, 2⟩] (tmpName exF exH) = some [7, 7] := by decide
+-- what re-using an existing temporary file would do (skip creat+write when the name exists, go straight to rename):
+-- not crash safe, and after the torn attempt above the completed retry installs the torn prefix
+example : safeSeq [.rename .tmp .target] = false := by decide
+example : crashState exF (tmpName exF exH) [7, 7, 7, 7]
+    (afterAttempts exF exFS [⟨exH, [7, 7, 7, 7], 1, 2⟩]) [.rename .tmp .target] 1 0 exF = some [7, 7] := by decide
 
 /-! ### the defect this property found (F8): the in-place rewrite is NOT crash safe.
 `ioutil.WriteFile(tmp); ioutil.WriteFile(filename); os.Remove(tmp)` — a crash after the
